@@ -239,7 +239,27 @@ async def run_scenario(env, case, wall=600.0):
     tasks += [asyncio.ensure_future(foreign(fj, k)) for k, fj in enumerate(case["foreign"])]
     if case["undeploy_at"] is not None:
         tasks.append(asyncio.ensure_future(undeployer(case["undeploy_at"])))
-    done, pending = await asyncio.wait(tasks, timeout=wall)
+    # Watchdogs (both => inconclusive, never a violation): `wall` seconds in total; or a run() that is
+    # still polling `grace` seconds after every submitted job of this connector left the queue.
+    t_start = time.time()
+    idle_since = None
+    stalled = False
+    grace = 90.0
+    pending = set(tasks)
+    while pending and time.time() - t_start < wall:
+        done, pending = await asyncio.wait(pending, timeout=2.0)
+        if not pending:
+            break
+        dbm = read_db(state)
+        own_states = [v["state"] for v in dbm["jobs"].values() if v["idx"] >= 0]
+        all_submitted = counts["ack"] + counts["run-raised"] + counts["run-return"] >= len(case["jobs"])
+        if all_submitted and own_states and not any(x in ACTIVE for x in own_states):
+            idle_since = idle_since or time.time()
+            if time.time() - idle_since > grace:
+                stalled = True
+                break
+        else:
+            idle_since = None
     timed_out = bool(pending)
     for t in pending:
         t.cancel()
@@ -253,7 +273,7 @@ async def run_scenario(env, case, wall=600.0):
         pass
     shutil.rmtree(base, ignore_errors=True)
     return {"H": H, "log": final["log"], "jobs": {k: {"state": v["state"], "idx": v["idx"], "rc": v["rc"]} for k, v in final["jobs"].items()},
-            "timed_out": timed_out, "crashed": crashed}
+            "timed_out": timed_out, "stalled": stalled, "crashed": crashed}
 
 
 # ----------------------------------------------------------------------------------------------
@@ -386,7 +406,8 @@ async def run_case(env, sh, case, stats, sample=False):
         sh.inconclusive_because("harness task crashed: " + obs["crashed"][0][-600:])
         return obs
     if obs["timed_out"]:
-        sh.inconclusive_because("scenario hit the wall-clock watchdog: " + digest(case))
+        sh.inconclusive_because(("run() still polling 90 s after all its jobs left the queue: " if obs["stalled"]
+                                 else "scenario hit the wall-clock watchdog: ") + digest(case))
         return obs
     V, recs, cnt, nontrivial = judge(case, obs)
     for k, n in cnt.items():
